@@ -46,6 +46,20 @@ func init() {
 			k.PBounded = 40
 			k.MaxDepth = 2
 			k.MinStmts = 2
+		} else if gen.Chance(t, "huge", 12) {
+			// huge mode: two accounts, one asset, most balances, amounts, caps and overdraft
+			// bounds around 2^63 / 2^64 / 2^70 (sums of several pulls from one account crossing a
+			// word boundary), the same account named many times
+			k.Accounts = []string{"a", "b"}
+			k.Assets = []string{"USD"}
+			k.PBig = 55
+			k.PRich = 0
+			k.PSendAll = 40
+			k.PBounded = 30
+			k.PSave = 5
+			k.PCall = 0
+			k.PAllotSrc = 5
+			k.MaxWidth = 5
 		}
 		return gen.NewTG(t, k).Case()
 	}
